@@ -1,10 +1,19 @@
 import SV.Driver.Util
-/- svdriver_c08: line protocol for the C08 model (stub until the model is built). -/
+import SV.Model.Snap
+/-
+svdriver_c08: line protocol for the snapshotter model (`SV/Model/Snap.lean`).
+  reset <async><norestore><allow>                         -> ok        (fresh root, new history)
+  <op> mf=<*|ids|-> cf=<ids|-> uf=<ids,t|-> order=<dirs|-> <args…>
+        op ∈ prepare key parent labels | view key parent labels | commit name key labels |
+             mounts key | remove key | cleanup | walk | stat key | update key lk lv | close |
+             restart <async><norestore><allow>
+      -> r=<class[:detail]> tr=<backend calls and crash-point markers> ls=<ids>+<#temps> meta=<walk>
+-/
 namespace SV.Driver.C08
+open SV.Snap SV.Snap.Wire
 
-def step (s : Unit) : List String → Unit × String
-  | _ => (s, "bad-op")
+def step (d : DSt) (ws : List String) : DSt × String := stepCommon d ws
 
 end SV.Driver.C08
 
-def main : IO Unit := SV.Driver.loop SV.Driver.C08.step ()
+def main : IO Unit := SV.Driver.loop SV.Driver.C08.step {}
